@@ -108,6 +108,40 @@ pub fn spec(property: &str, tier: &str) -> Option<CheckSpec> {
 			vec!["real blocks stay within one 1024-bit chunk; several chunks are covered by txhsim (every third case) with synthetic outputs: fake commitments and zero proofs, which nothing on the TxHashSet path verifies"],
 			vec!["reorg", "multi_chunk_state", "rewind_shrinks_across_chunk_boundary"],
 		)),
+		"C19" => {
+			let mut sp = s(
+				"wiresim",
+				"fault_enumeration",
+				if quick { 8 } else { 32 },
+				"case = one real chain (36-70 blocks, real PoW headers) from which every message type is encoded by the real write_message at protocol versions 1, 2, 3 and 1000; evaluation = one delivery of a byte stream to the real Codec over a lock-stepped loopback socket: message sequences over all types (incl. header lists of 0/1/31/32/33/65 headers, TxHashSetArchive followed by a streamed attachment, unknown type bytes with bodies) delivered unfragmented, at every single split point (all of them for streams up to 1.5 KB, frame-header neighbourhoods plus a spread beyond), with random multi-splits and as a one-byte dribble; frame headers of every type with length limit*4+1, 2*limit*4, 2^63, 2^64-1 and wrong magic, which must be refused having consumed exactly the 11 header bytes and without a large allocation; Handshake::accept/initiate against a simulated remote at versions 1,2,3,999,1000,1001,5000, a different genesis and a self connection. Oracle: the reader returns exactly the written sequence (headers re-batched by 32, attachment bytes in 48 KB chunks)",
+				vec!["gaps between fragments stay far below the 2 s / 60 s I/O timeouts", "documented per-type limits are a copy of msg.rs::max_msg_size kept in the harness"],
+				vec!["single_split_points", "dribble", "handshake_accept", "handshake_initiate", "headers_list_33"],
+			);
+			sp.real_components = vec![
+				"grin_p2p Codec::read, write_message, read_message, MsgHeaderWrapper::read, Handshake::accept/initiate".into(),
+				"grin_core ser (all message bodies), UntrustedBlock/Header/CompactBlock read-time checks, real PoW verification of received headers".into(),
+				"kernel TCP loopback sockets".into(),
+			];
+			sp.stub_components = vec!["the remote peer (simulator owns the other end of the socket and the fragmentation)".into(), "p2p::Protocol/Peer (the reader loop mirrors conn::poll: stop at the first error; expect_attachment after TxHashSetArchive)".into()];
+			Some(sp)
+		}
+		"C11" => {
+			let mut sp = s(
+				"wiresim",
+				"exploration",
+				if quick { 8 } else { 32 },
+				"case = one real chain from which every message type (incl. real segments, header lists, an archive message) is encoded at protocol versions 1, 2, 3, 1000; evaluation = one hostile byte stream delivered to the real Codec over a loopback socket (optionally split once) followed by connection close: truncation at every (sampled) offset, 64/32/16-bit windows at every body offset set to boundary values (0, 1, 2, 0xff, 0xffff, 2^16, 2^32-1, 2^32, 2^64-1), tag/feature bytes swept, random bodies behind a valid header, announced lengths disagreeing with the content, bodies spliced from two messages; decoded values are passed to the stateless checks (validate_read / validate, Segment::validate / validate_with against the archive header, BitmapSegment::into_segment). Oracle: the reader thread never panics, returns within 10 s of EOF, and no single allocation exceeds 16 x the documented per-type limit + 32 x input length + 1 MiB. MerkleProof::from_hex is driven in a forked child (address space capped) with valid, truncated, non-hex, non-ASCII, random and huge-path-length inputs: exit status observed",
+				vec!["release build of the harness (shipped arithmetic: overflow checks off)", "allocation is measured process-wide with a counting global allocator; harness-side buffers are bounded by the input length"],
+				vec!["mutation:truncate", "mutation:field64", "mutation:splice", "merkle-hex:random"],
+			);
+			sp.required_probes = vec![];
+			sp.real_components = vec![
+				"grin_p2p Codec::read / decode_message / MsgHeaderWrapper::read".into(),
+				"grin_core ser readers for every message body, UntrustedBlock/Header/CompactBlock, TransactionBody::read, Segment/SegmentProof/BitmapSegment readers, MerkleProof::read/from_hex".into(),
+			];
+			sp.stub_components = vec!["the hostile peer".into()];
+			Some(sp)
+		}
 		"C09" => {
 			let mut sp = s(
 				"crashsim",
@@ -636,6 +670,8 @@ pub fn replay_chainsim(rp: &Value) -> Result<Option<Violation>, String> {
 pub fn run_case(property: &str, tier: &str, seed: u64, case: u64) -> CaseResult {
 	match property {
 		"C09" => crate::crashsim::case(tier, seed, case),
+		"C19" => crate::wiresim::c19_case(tier, seed, case),
+		"C11" => crate::wiresim::c11_case(tier, seed, case),
 		"C15" => {
 			if case % 3 == 2 {
 				let mut r = crate::txhsim::case(tier, seed, case);
